@@ -53,3 +53,18 @@ Proof.
   intros isem prog ri entry args orc n m r1 r2. unfold run_program.
   destruct (init_state prog entry args (init_mem ri) orc); [apply run_deterministic|congruence].
 Qed.
+
+(* long double at the boundaries of a function: between MIR functions a long double value passes
+   unchanged (all 80 bits) and nothing else passes at type ld; towards the outside world (external
+   functions, the result of the entry function) the type is not supported *)
+Lemma ld_boundary : forall z,
+  conv_ty T_LD false (V z LDt) = Ok (V z LDt) /\
+  (forall g, g <> LDt -> conv_ty T_LD false (V z g) = Er E_tag) /\
+  (forall v, conv_ty T_LD true v = Er E_tag) /\
+  (forall t, t <> T_LD -> conv_ty t false (V z LDt) = Er E_tag).
+Proof.
+  intros z. split; [reflexivity|]. split; [|split].
+  - intros g Hg. destruct g; try reflexivity. congruence.
+  - intros [b g]. destruct g; reflexivity.
+  - intros t Ht. destruct t; try reflexivity. congruence.
+Qed.
